@@ -2,8 +2,8 @@
 //! ledger of create / clone / drop events so that "moved, never cloned or dropped" and "dropped
 //! exactly once" are observable.  A countdown makes the k-th callback panic (fault injection).
 
-use std::cell::RefCell;
 use std::collections::HashSet;
+use std::sync::{LazyLock, Mutex, MutexGuard};
 
 #[derive(Default)]
 pub struct Ledger {
@@ -20,12 +20,15 @@ pub struct Ledger {
     pub callbacks: u64,
 }
 
-thread_local! {
-    pub static LEDGER: RefCell<Ledger> = RefCell::new(Ledger::default());
+/// one process-wide ledger (tokens may be created / dropped on worker threads)
+pub static LEDGER: LazyLock<Mutex<Ledger>> = LazyLock::new(|| Mutex::new(Ledger::default()));
+
+fn ledger() -> MutexGuard<'static, Ledger> {
+    LEDGER.lock().unwrap_or_else(|e| e.into_inner())
 }
 
 pub fn ledger_reset() {
-    LEDGER.with(|l| *l.borrow_mut() = Ledger::default());
+    *ledger() = Ledger::default();
 }
 
 #[derive(Clone, Copy, PartialEq, Eq, Debug, Default)]
@@ -40,8 +43,8 @@ pub struct Snapshot {
 }
 
 pub fn snapshot() -> Snapshot {
-    LEDGER.with(|l| {
-        let l = l.borrow();
+    {
+        let l = ledger();
         Snapshot {
             created: l.created,
             cloned: l.cloned,
@@ -51,17 +54,17 @@ pub fn snapshot() -> Snapshot {
             double_drops: l.double_drops.len(),
             callbacks: l.callbacks,
         }
-    })
+    }
 }
 
 pub fn set_fuse(k: Option<u64>) {
-    LEDGER.with(|l| l.borrow_mut().fuse = k);
+    ledger().fuse = k;
 }
 
 /// one caller-code invocation: counts, and panics if the fuse has burnt down
 pub fn callback() {
-    let fire = LEDGER.with(|l| {
-        let mut l = l.borrow_mut();
+    let fire = {
+        let mut l = ledger();
         l.callbacks += 1;
         match l.fuse {
             Some(0) => {
@@ -74,7 +77,7 @@ pub fn callback() {
             }
             None => false,
         }
-    });
+    };
     if fire && !std::thread::panicking() {
         panic!("injected fault");
     }
@@ -96,11 +99,11 @@ pub struct Tok {
 
 impl Tok {
     pub fn new(val: impl Into<String>) -> Tok {
-        let id = LEDGER.with(|l| {
-            let mut l = l.borrow_mut();
+        let id = {
+            let mut l = ledger();
             l.created += 1;
             fresh_id(&mut l)
-        });
+        };
         Tok { id, val: val.into(), _pad: 0 }
     }
 }
@@ -108,11 +111,11 @@ impl Tok {
 impl Clone for Tok {
     fn clone(&self) -> Tok {
         callback();
-        let id = LEDGER.with(|l| {
-            let mut l = l.borrow_mut();
+        let id = {
+            let mut l = ledger();
             l.cloned += 1;
             fresh_id(&mut l)
-        });
+        };
         // a clone is marked with a prime, so that cloned elements are visible in observations
         Tok { id, val: format!("{}'", self.val), _pad: 0 }
     }
@@ -121,31 +124,29 @@ impl Clone for Tok {
 impl Default for Tok {
     fn default() -> Tok {
         callback();
-        let id = LEDGER.with(|l| {
-            let mut l = l.borrow_mut();
+        let id = {
+            let mut l = ledger();
             l.defaults += 1;
             fresh_id(&mut l)
-        });
+        };
         Tok { id, val: "d".to_string(), _pad: 0 }
     }
 }
 
 impl Drop for Tok {
     fn drop(&mut self) {
-        LEDGER.with(|l| {
-            let mut l = l.borrow_mut();
-            l.dropped += 1;
-            if !l.live.remove(&self.id) {
-                l.double_drops.push(self.id);
-            }
-        });
+        let mut l = ledger();
+        l.dropped += 1;
+        if !l.live.remove(&self.id) {
+            l.double_drops.push(self.id);
+        }
     }
 }
 
 impl PartialEq for Tok {
     fn eq(&self, other: &Tok) -> bool {
         callback();
-        LEDGER.with(|l| l.borrow_mut().eq_calls += 1);
+        ledger().eq_calls += 1;
         self.val == other.val
     }
 }
